@@ -145,7 +145,16 @@ func sortNPMDependencies(deps []RequirementVersion) {
 		if la != lb {
 			return la < lb
 		}
-		return na > nb
+		if na != nb {
+			return na > nb
+		}
+		// Several requirements may compete for one name (an alias and the
+		// package of that name, say). Order them by what they are, so that
+		// the result does not depend on the order they were given in.
+		if c := a.Type.Compare(b.Type); c != 0 {
+			return c < 0
+		}
+		return a.VersionKey.Less(b.VersionKey)
 	})
 }
 
